@@ -86,7 +86,7 @@ def run(ctx):
                 "extreme doubles; non-trivial = a tied and a differing coordinate, or mixed better/worse coordinates, or "
                 "different markers; distinct = distinct (phi p, phi q, markers[, eps])")
     ctx.assumptions += ["costs are finite floats (NaN/inf excluded as in the statement)",
-                        "eps stream: coordinates bit-identical or further apart than 1e-9 relative (statement: 'differ by more than rounding error')"]
+                        "eps stream: coordinates bit-identical or further apart than 1e-13 relative (statement: 'differ by more than rounding error')"]
     n_pairs = 20000 if ctx.quick else 400000
     maxlen = 8 if ctx.quick else 40
     cases = []
@@ -146,7 +146,12 @@ def run(ctx):
         m = rng.randint(1, 6)
         pool = [rng.uniform(-50, 50) for _ in range(rng.randint(1, 3))] + [0.0, 1.0, -2.5, 1e-3, 7e4]
         p, q = gen_vec_pair(rng, m, pool)
-        ok = all(a == b or abs(a - b) > 1e-9 * max(abs(a), abs(b)) for a, b in zip(p, q))
+        if rng.random() < 0.25:     # nearly tied but different coordinates (far above rounding error)
+            q = list(p)
+            for _ in range(rng.randint(1, m)):
+                k = rng.randrange(m)
+                q[k] = p[k] * (1.0 + rng.choice([-1, 1]) * 10 ** rng.uniform(-12.5, -9)) if p[k] != 0 else rng.choice([-1, 1]) * 10 ** rng.uniform(-12, -9)
+        ok = all(a == b or abs(a - b) > 1e-13 * max(abs(a), abs(b)) for a, b in zip(p, q))
         if not ok:
             continue
         ne = rng.randint(1, m + 1)
